@@ -6,7 +6,7 @@ EXTENDS CubePool, Json
 VARIABLE hist
 NoFaults == {{}}
 GInit == Init /\ hist = <<>>
-GNext == \/ \E w \in Workers : (Take(w) \/ Check(w) \/ Fill(w) \/ EndTask(w)) /\ hist' = Append(hist, w)
+GNext == \/ \E w \in Workers : (Take(w) \/ Check(w) \/ SkipTask(w) \/ Fill(w) \/ EndTask(w)) /\ hist' = Append(hist, w)
          \/ MapDone /\ UNCHANGED hist
 GSpec == GInit /\ [][GNext]_<<vars, hist>>
 Emit == (outcome # "running") => PrintT(<<"BEH", ToJson(hist)>>)
